@@ -474,46 +474,147 @@ def run_model(ctx, lines, jobs):
 
 
 # ------------------------------------------------------------------------------------------------ in-process part
-def classify(ctx, sc, stats):
-    """sc has impl, model, implfull (or None), spec (or None). Reports violations; returns True if something was wrong."""
+OPS_FIELD = {"ostream": 2, "istream": 4, "xistream": 5, "xostream": 3}
+
+
+def parse_line(l, B, small, bx):
+    """scenario record for a protocol line (corpus entries, shrunk candidates); None when it does not apply to this tree"""
+    l = l.strip()
+    if not l or l.startswith("#"):
+        return None
+    w = l.split(" ")
+    kind = w[0]
+    script = [] if w[-1] == "-" else w[-1].split(",")
+    try:
+        b = int(w[1]) if kind in ("istream", "xistream") else 0
+        sc = {"kind": kind, "B": b, "script": script, "line": l, "full": " ".join(w[:-1] + ["-"]), "args": None}
+        if kind == "readat":
+            sc["args"] = (w[1], int(w[2]), int(w[3]))
+        elif kind == "writeat":
+            sc["args"] = (w[1], int(w[2]), w[3])
+        elif kind == "ostream":
+            sc["args"] = (w[1], [] if w[2] == "-" else w[2].split(","))
+        elif kind == "istream":
+            sc["spec"] = "spec %s %s %s" % (w[1], w[3], w[4])
+            if b != B and b not in small:
+                return None
+        elif kind == "xistream":
+            sc["spec"] = "xspec %s %s %s %s" % (w[1], w[2], w[4], w[5])
+            if b not in bx or bx[b][0] != int(w[2]):
+                return None
+        elif kind == "xostream":
+            cand = [k for k, v in bx.items() if v[1] == int(w[1])]
+            if not cand:
+                return None
+            sc["B"] = cand[0]
+            sc["args"] = (w[2], [] if w[3] == "-" else w[3].split(","))
+        else:
+            return None
+    except (ValueError, IndexError):
+        return None
+    return sc
+
+
+def judge(sc):
+    """(property failures, correspondence broken?) for a scenario that has impl / implfull / model / specout"""
     kind, hard = sc["kind"], is_hard(sc["script"])
-    wrong = False
     if sc["impl"] in ("overrun", "bad-op", "bad-B"):
-        ctx.violation("inproc:%s:%s" % (kind, vlib.sha(sc["line"])[:12]), "harness answered %r on: %s" % (sc["impl"], sc["line"][:300]),
-                      {"line": sc["line"], "B": sc["B"], "impl": sc["impl"]})
-        return True
+        return ["harness answered %r" % sc["impl"]], False
     failures = never_short(sc)
     if not hard and sc.get("implfull") is not None and observable(kind, sc["impl"]) != observable(kind, sc["implfull"]):
         failures.append("result under short counts/EINTR differs from the implementation's own result when every call completes in full")
-    if not hard and sc.get("specout") is not None:
+    if not hard and sc.get("specout") is not None and observable(kind, sc["impl"]) != sc["specout"]:
         # ideal-stream specification (no OS at all) evaluated against what the implementation let the client observe
-        io_ = observable(kind, sc["impl"])
-        io_ = re.sub(r"out=(\S+)", r"out=\1", io_)
-        if io_ != sc["specout"]:
-            failures.append("client observations differ from the ideal-stream specification: spec=%s" % sc["specout"][:300])
+        failures.append("client observations differ from the ideal-stream specification: spec=%s" % sc["specout"][:300])
+    return failures, (not failures and sc["impl"] != sc["model"])
+
+
+def evaluate(ctx, hs, B, scs):
+    """fill impl / implfull / model / specout for a few scenarios (sequentially); returns False on a crash"""
+    groups = {}
+    for sc in scs:
+        groups.setdefault(sc["B"] if sc["kind"] in STREAMK else B, []).append(sc)
+    for key, g in groups.items():
+        lines = [sc["line"] for sc in g] + [sc["full"] for sc in g if not is_hard(sc["script"])]
+        out, crash = run_harness(ctx, hs[key], lines)
+        if crash:
+            return False
+        it = iter(out[len(g):])
+        for sc, o in zip(g, out):
+            sc["impl"], sc["implfull"] = o, (next(it) if not is_hard(sc["script"]) else None)
+    mlines = [sc["line"] for sc in scs] + [sc["spec"] for sc in scs if sc.get("spec") and not is_hard(sc["script"])]
+    mout = ctx.driver(["c12"], "\n".join(mlines) + "\n", timeout=1500)
+    it = iter(mout[len(scs):])
+    for sc, o in zip(scs, mout):
+        sc["model"] = o
+        if sc.get("spec") and not is_hard(sc["script"]):
+            sc["specout"] = next(it)
+    return True
+
+
+def shrink(ctx, hs, B, small, bx, sc, rounds=8):
+    """greedy minimisation of a disagreeing scenario: drop script events and client operations while the same
+    kind of disagreement (property failure / correspondence only) remains"""
+    want_prop = bool(judge(sc)[0])
+    cur = sc
+    for _ in range(rounds):
+        w = cur["line"].split(" ")
+        cands = []
+        script = [] if w[-1] == "-" else w[-1].split(",")
+        for i in range(len(script)):
+            t = script[:i] + script[i + 1:]
+            cands.append(" ".join(w[:-1] + [",".join(t) if t else "-"]))
+        f = OPS_FIELD.get(cur["kind"])
+        if f is not None and w[f] != "-":
+            ops = w[f].split(",")
+            for i in range(len(ops)):
+                t = ops[:i] + ops[i + 1:]
+                cands.append(" ".join(w[:f] + [",".join(t) if t else "-"] + w[f + 1:]))
+        cands = cands[:120]
+        scs = [x for x in (parse_line(c, B, small, bx) for c in cands) if x is not None]
+        if not scs or not evaluate(ctx, hs, B, scs):
+            break
+        nxt = None
+        for x in scs:
+            fl, corr = judge(x)
+            if (want_prop and fl) or (not want_prop and corr):
+                nxt = x
+                break
+        if nxt is None:
+            break
+        cur = nxt
+    return cur
+
+
+def classify(ctx, sc, stats, env=None):
+    """sc has impl, model, implfull (or None), specout (or None). Reports violations; returns True if something was wrong."""
+    kind = sc["kind"]
+    failures, corr = judge(sc)
+    if not failures and not corr:
+        return False
+    which = "property_failures" if failures else "corr_failures"
+    stats[which] += 1
+    if stats[which] > 5:
+        return True
+    orig = sc["line"]
+    try:
+        sc = shrink(ctx, *env, sc) if env else sc
+        failures, corr = judge(sc)
+    except Exception as e:                       # shrinking is best effort
+        ctx.log("shrink failed:", e)
+    rp = {"line": sc["line"], "full": sc["full"], "spec": sc.get("spec"), "B": sc["B"], "impl": sc["impl"],
+          "implfull": sc.get("implfull"), "model": sc["model"], "original_line": orig}
     if failures:
-        stats["property_failures"] += 1
-        wrong = True
-        if stats["property_failures"] <= 5:
-            ctx.violation("split:%s:%s" % (kind, vlib.sha(sc["line"])[:12]),
-                          "%s: %s | scenario: %s | impl: %s | impl(full): %s | model: %s" % (
-                              kind, "; ".join(failures), sc["line"][:400], sc["impl"][:400], (sc.get("implfull") or "")[:300], sc["model"][:400]),
-                          {"line": sc["line"], "full": sc["full"], "spec": sc.get("spec"), "B": sc["B"], "impl": sc["impl"],
-                           "implfull": sc.get("implfull"), "model": sc["model"], "failures": failures})
-    elif sc["impl"] != sc["model"]:
-        stats["corr_failures"] += 1
-        wrong = True
-        if stats["corr_failures"] <= 5:
-            ctx.violation("corr:%s:%s" % (kind, vlib.sha(sc["line"])[:12]),
-                          "model and code disagree (the property's monitors do not fail on this scenario): %s | impl: %s | model: %s" % (
-                              sc["line"][:400], sc["impl"][:400], sc["model"][:400]),
-                          {"line": sc["line"], "full": sc["full"], "B": sc["B"], "impl": sc["impl"], "model": sc["model"],
-                           "correspondence": "harness/h_c12.c vs lean/Driver/C12.lean"}, found_input=False)
-    return wrong
-
-
-def spec_normalise(kind, implobs):
-    return implobs
+        rp["failures"] = failures
+        ctx.violation("split:%s:%s" % (kind, vlib.sha(sc["line"])[:12]),
+                      "%s: %s | scenario: %s | impl: %s | impl(full): %s | model: %s" % (
+                          kind, "; ".join(failures), sc["line"][:400], sc["impl"][:400], (sc.get("implfull") or "")[:300], sc["model"][:400]), rp)
+    else:
+        rp["correspondence"] = "harness/h_c12.c vs lean/Driver/C12.lean"
+        ctx.violation("corr:%s:%s" % (kind, vlib.sha(sc["line"])[:12]),
+                      "model and code disagree (the property's monitors do not fail on this scenario): %s | impl: %s | model: %s" % (
+                          sc["line"][:400], sc["impl"][:400], sc["model"][:400]), rp, found_input=False)
+    return True
 
 
 def inprocess(ctx, hs, B, small, bx):
@@ -525,38 +626,10 @@ def inprocess(ctx, hs, B, small, bx):
     if cdir.exists():
         for p in sorted(cdir.glob("*.txt")):
             for l in p.read_text().splitlines():
-                l = l.strip()
-                if not l or l.startswith("#"):
-                    continue
-                w = l.split(" ")
-                kind = w[0]
-                script = [] if w[-1] == "-" else w[-1].split(",")
-                b = int(w[1]) if kind in ("istream", "xistream") else 0
-                sc = {"kind": kind, "B": b, "script": script, "line": l, "full": " ".join(w[:-1] + ["-"]), "args": None}
-                if kind == "readat":
-                    sc["args"] = (w[1], int(w[2]), int(w[3]))
-                elif kind == "writeat":
-                    sc["args"] = (w[1], int(w[2]), w[3])
-                elif kind == "ostream":
-                    sc["args"] = (w[1], [] if w[2] == "-" else w[2].split(","))
-                elif kind == "istream":
-                    sc["spec"] = "spec %s %s %s" % (w[1], w[3], w[4])
-                    if b != B and b not in small:
-                        continue
-                elif kind == "xistream":
-                    sc["spec"] = "xspec %s %s %s %s" % (w[1], w[2], w[4], w[5])
-                    if b not in bx or bx[b][0] != int(w[2]):
-                        continue
-                elif kind == "xostream":
-                    cand = [k for k, v in bx.items() if v[1] == int(w[1])]
-                    if not cand:
-                        continue
-                    sc["B"] = b = cand[0]
-                    sc["args"] = (w[2], [] if w[3] == "-" else w[3].split(","))
-                else:
-                    continue
-                scen.append(sc)
-                ncorpus += 1
+                sc = parse_line(l, B, small, bx)
+                if sc is not None:
+                    scen.append(sc)
+                    ncorpus += 1
     n_small = 2500 if quick else 60000
     n_big = 30 if quick else 700
     for _ in range(n_small):
@@ -612,7 +685,7 @@ def inprocess(ctx, hs, B, small, bx):
         if sc["kind"] in ("istream", "xistream") and not is_hard(sc["script"]):
             sc["specout"] = next(it)
     for sc in scen:
-        classify(ctx, sc, stats)
+        classify(ctx, sc, stats, (hs, B, small, bx))
     return scen, stats, ncorpus
 
 
